@@ -31,6 +31,15 @@ func (c *Ctx) computeInfeasible() {
 			if iff == nil {
 				continue
 			}
+			// a condition that is a constant after inlining (`queueable := true; if queueable {…}`)
+			if k, isK := constBool(iff.Cond); isK {
+				if k {
+					infeasibleEdges[b] = 1 + 1
+				} else {
+					infeasibleEdges[b] = 0 + 1
+				}
+				continue
+			}
 			bin, ok := iff.Cond.(*ssa.BinOp)
 			if !ok || (bin.Op != token.NEQ && bin.Op != token.EQL) {
 				continue
